@@ -132,7 +132,7 @@ def caps_for(date, params, res, df):
     return [c for c in out if c]
 
 
-MODES = ["zero", "rich", "negative_rent", "old", "many_children", "mixed", "unemployed_high_earner", "disabled", "parental_leave_high_earner"]
+MODES = ["zero", "rich", "negative_rent", "old", "many_children", "mixed", "unemployed_high_earner", "disabled", "parental_leave_high_earner", "working_early_retiree"]
 
 
 def corner_population(date, rnd, tid):
@@ -186,24 +186,35 @@ def corner_population(date, rnd, tid):
     if mode == "many_children":
         a = popgen.rec(partner=2, spouse=2, gv=True)
         b = popgen.rec(partner=1, spouse=1, gv=True)
-        nk = 10 if tid % 2 == 0 else rnd.choice([6, 8])
-        if tid % 2 == 0:
+        couple = (tid // len(MODES)) % 2 == 1      # rounds alternate between a couple and a single parent (the couple meets the law in force today)
+        nk = 10 if couple else rnd.choice([6, 8])
+        if couple:
             s = [a, b] + [popgen.rec(age=24, e1=1, e2=2) for _ in range(nk)]
         else:   # a single parent with many children
             s = [popgen.rec()] + [popgen.rec(age=24, e1=1) for _ in range(nk)]
         P = popgen.compose([s], date, rnd)
-        for k, p in enumerate(P[(2 if tid % 2 == 0 else 1):]):
+        for k, p in enumerate(P[(2 if couple else 1):]):
             p["alter"] = k % 18
             p["geburtsjahr"] = gs.year_of(date) - p["alter"]
             p["kind"] = True
             p["bruttolohn_m"] = 0.0
             # (the generator may have dressed the record as an adult: a child is no pensioner)
             p.update({"rentner": False, "voll_erwerbsgemind": False, "teilw_erwerbsgemind": False, "m_pflichtbeitrag": 0.0, "arbeitssuchend": False, "eink_selbst_m": 0.0, "jahr_renteneintr": p["geburtsjahr"] + 67})
-        if tid % 2 == 1:
+        if not couple:
             P[0]["alleinerz"] = True
         # the parents are in regular employment (child-related discounts of contributions apply to them)
-        for p, w in zip(P[: (2 if tid % 2 == 0 else 1)], (3000.0, 1500.0)):
+        for p, w in zip(P[: (2 if couple else 1)], (3000.0, 1500.0)):
             p.update({"bruttolohn_m": w, "arbeitsstunden_w": 38.0, "rentner": False, "voll_erwerbsgemind": False, "teilw_erwerbsgemind": False, "selbstständig": False, "in_priv_krankenv": False, "alter": 42, "geburtsjahr": gs.year_of(date) - 42})
+    if mode == "working_early_retiree":
+        # pensioners below the standard retirement age who keep working for high wages (earnings deducted from the pension;
+        # the cap from the best of the last fifteen years does not bind)
+        for p in P:
+            if p["alter"] >= 25:
+                a_ = rnd.choice([63, 64])
+                w_ = rnd.choice([2500.0, 4000.0, 6000.0, 9000.0])
+                p.update({"alter": a_, "geburtsjahr": gs.year_of(date) - a_, "rentner": True, "jahr_renteneintr": gs.year_of(date) - 1, "bruttolohn_m": w_, "bruttolohn_vorj_m": w_, "arbeitsstunden_w": 40.0,
+                          "höchster_bruttolohn_letzte_15_jahre_vor_rente_y": 12 * (w_ + 2000.0), "entgeltp_west": 40.0, "entgeltp_ost": 0.0, "voll_erwerbsgemind": False, "teilw_erwerbsgemind": False,
+                          "m_pflichtbeitrag": 480.0, "y_pflichtbeitr_ab_40": 20.0, "selbstständig": False, "eink_selbst_m": 0.0})
     if mode == "parental_leave_high_earner":
         # a parent on leave without current earnings, very high net income before the birth, small siblings (sibling bonus
         # and multiple-birth bonus range), previous year's taxable income below the eligibility limit
@@ -279,8 +290,9 @@ def run(tier):
     from c04 import change_dates_for
 
     dates = change_dates_for(rnd, quick, 3, nreg=1)
-    njobs = 45 if quick else 18 * len(dates)
-    outs = pool_map(job, sorted([(dates[t % len(dates)], rnd.randrange(1 << 30), t, str(chk.work)) for t in range(njobs)]))
+    njobs = 50 if quick else 20 * len(dates)
+    # every corner mode meets every date of the run (the date index rotates with each round through the modes)
+    outs = pool_map(job, sorted([(dates[(t + t // len(MODES)) % len(dates)], rnd.randrange(1 << 30), t, str(chk.work)) for t in range(njobs)]))
     seen = set()
     for info in outs:
         if "base_error" in info:
@@ -300,7 +312,7 @@ def run(tier):
             chk.violation(sig, f"{m['node']}: {clause}" + (f" ({m['cap']})" if "cap" in m else "") + f" on a {info['mode']} population at {info['date']}", {"date": info["date"], "mode": info["mode"], "persons": info["persons"], **m})
         chk.sample({"date": info["date"], "mode": info["mode"], "persons": info["n"], "columns": info["nout"], "caps": info["ncap"]})
     chk.cov["rule"] = (
-        "corner populations in nine modes (a parent on leave with very high income before the birth and small siblings; reduced earning capacity with early pension start; all incomes zero; 1e7 yearly income with 1e9 wealth; negative rental income; ages 67-100 pensioners; couple with 6-10 children; mixed; unemployed former high earners) over random structures, all nodes with rounding on, at 5 seeded change / regime dates (thorough: every change date 2015-2025 outside 2017H1); "
+        "corner populations in ten modes (working pensioners below the standard age with high wages; a parent on leave with very high income before the birth and small siblings; reduced earning capacity with early pension start; all incomes zero; 1e7 yearly income with 1e9 wealth; negative rental income; ages 67-100 pensioners; couple with 6-10 children; mixed; unemployed former high earners) over random structures, all nodes with rounding on, at 5 seeded change / regime dates (thorough: every change date 2015-2025 outside 2017H1); "
         "every numeric column checked Finite, default targets NonNegative, 6-8 cap relations per run; distinct_nontrivial = distinct (date, mode, population)"
     )
     chk.assumptions += ["caps are a hand-written table of relations (see caps_for); the 'e.g.' list of the statement is covered first", "non-negativity tolerance 1e-9"]
